@@ -588,6 +588,23 @@ Section MuxProofs.
     - intro q. destruct H as (H1 & H2 & H3 & _). unfold mk_key. now rewrite H1, H2, H3.
   Qed.
 
+  (** *** xForwardedFor: routing sees the request as received, the backend sees the appended header *)
+  Theorem xff_option_irrelevant : forall b sv rq,
+    serve_nocache (set_xff b sv) rq = serve_nocache sv rq.
+  Proof. reflexivity. Qed.
+
+  Theorem forwarded_for_spec : forall sv rq,
+    (sv_xff sv = false -> forwarded_for sv rq = hget "X-Forwarded-For" (rq_headers rq)) /\
+    (sv_xff sv = true -> alookup "X-Forwarded-For" (rq_headers rq) = None -> forwarded_for sv rq = rq_ip rq) /\
+    (sv_xff sv = true -> forall v, alookup "X-Forwarded-For" (rq_headers rq) = Some v -> v <> "" ->
+       forwarded_for sv rq = if str_contains (rq_ip rq) v then v else v ++ "," ++ rq_ip rq).
+  Proof.
+    intros sv rq. unfold forwarded_for, hget. repeat split.
+    - intros ->. reflexivity.
+    - intros -> ->. reflexivity.
+    - intros -> v -> Hv. cbn [negb]. rewrite (nonempty_true _ Hv). reflexivity.
+  Qed.
+
   (** *** router-level C05 clauses, cache-less *)
   Theorem denied_403_nocache : forall sv rq,
     denied sv rq = true -> serve_nocache sv rq = Failed 403.
